@@ -36,7 +36,7 @@ const Bound = 6 * time.Second
 // BoundCPU is the bound for entry points that only compute on a small input (parsers): still three
 // to six orders of magnitude above what such a call takes, and short enough that a runaway loop that
 // also allocates cannot exhaust memory before it is reported.
-const BoundCPU = 2 * time.Second
+const BoundCPU = 1 * time.Second
 
 // Outcome is what a guarded call did.
 type Outcome struct {
